@@ -66,6 +66,28 @@ def displayed_columns(dfspec: dict, body: dict) -> list[int]:
     return [j for j, c in enumerate(dfspec["cols"]) if c["name"] not in removed]
 
 
+def rel_widths(dfspec: dict, body: dict):
+    """relative width per ORIGINAL column (None for a column the widths do not cover), or None when the
+    given list matches no documented form.  Forms: omitted, one value (broadcast), one per column, and the
+    documented short form with subline_by: one per column that remains once the subline_by columns are gone"""
+    ncol = len(dfspec["cols"])
+    w = body.get("col_rel_width")
+    if w is None:
+        return [1] * ncol
+    if not isinstance(w, (list, tuple)):
+        return [w] * ncol
+    w = list(w)
+    if len(w) == 1 and ncol > 1:
+        return w * ncol
+    if len(w) == ncol:
+        return w
+    sb = [j for j, c in enumerate(dfspec["cols"]) if c["name"] in (body.get("subline_by") or [])]
+    if sb and len(w) == ncol - len(sb):
+        it = iter(w)
+        return [None if j in sb else next(it) for j in range(ncol)]
+    return None
+
+
 def prefix_contiguous(rows: list[tuple]) -> bool:
     """group keys are contiguous at every level: for each prefix length L, equal
     prefixes of length L form one contiguous run (None is a value of its own)."""
